@@ -281,3 +281,22 @@ func dataType2CommonType(t byte) common.DataType {
 		return common.NONE
 	}
 }
+
+// dedupArgs removes the repeated members/fields/keys given in one command (the first one is kept),
+// since the existence of each of them is checked against the db before the write batch is committed
+// and a repeated one would be counted twice.
+func dedupArgs(args [][]byte) [][]byte {
+	if len(args) < 2 {
+		return args
+	}
+	seen := make(map[string]struct{}, len(args))
+	uniq := args[:0:0]
+	for _, a := range args {
+		if _, ok := seen[string(a)]; ok {
+			continue
+		}
+		seen[string(a)] = struct{}{}
+		uniq = append(uniq, a)
+	}
+	return uniq
+}
